@@ -10,7 +10,7 @@ from persim import bottleneck, wasserstein
 
 from ..core import Clause, close
 from ..oracles import matching as M
-from ..strategies import SCALE_EXPONENTS, nudge
+from ..strategies import dict_of, SCALE_EXPONENTS, nudge
 from ._dist import call_quiet
 
 HASHSEEDS = "vary"
@@ -29,7 +29,7 @@ sizes = st.one_of(st.integers(0, 6), st.integers(7, 25), _big, _big, _big)
 
 
 def spec(count, min_size=0):
-    return st.fixed_dictionaries({
+    return dict_of({
         "seed": st.integers(0, 2 ** 32 - 1),
         "sizes": st.lists(sizes.map(lambda n: max(n, min_size)), min_size=count, max_size=count),
         "mode": st.sampled_from(["lattice", "lattice", "float", "mixed", "near"]),
@@ -122,7 +122,7 @@ def check_metric(case, ctx):
     ctx.nontrivial(nontriv)
 
 
-s_metric = st.fixed_dictionaries({"spec": spec(3)})
+s_metric = dict_of({"spec": spec(3)})
 
 
 def check_invariance(case, ctx):
@@ -152,7 +152,7 @@ def check_invariance(case, ctx):
                     lambda: "d(lam X, lam Y)=%r, lam d(X,Y)=%r, lam=%r" % (d3, lam * base, lam))
 
 
-s_invariance = st.fixed_dictionaries({
+s_invariance = dict_of({
     "spec": spec(2), "shift": st.one_of(st.integers(-1000, 1000).map(float), st.floats(-1e3, 1e3, allow_nan=False)),
     "lam": st.one_of(st.sampled_from([0.5, 2.0, 1e-3, 1e3, 3.0, 0.1]), st.floats(1e-3, 1e3, allow_nan=False)),
     "ndiag": st.integers(1, 10)})
@@ -175,7 +175,7 @@ def check_empty_and_order(case, ctx):
     ctx.require(b <= w + tol, "b_exceeds_w", lambda: "bottleneck %r > wasserstein %r" % (b, w))
 
 
-s_empty = st.fixed_dictionaries({"spec": spec(2, min_size=1)})
+s_empty = dict_of({"spec": spec(2, min_size=1)})
 
 
 def check_differential(case, ctx):
@@ -193,7 +193,7 @@ def check_differential(case, ctx):
 
 def spec_large():
     big = st.sampled_from([100, 110, 123, 150, 200, 260, 300])
-    return st.fixed_dictionaries({
+    return dict_of({
         "seed": st.integers(0, 2 ** 32 - 1), "sizes": st.lists(big, min_size=2, max_size=2),
         "mode": st.sampled_from(["lattice", "float", "near", "jitter"]), "L": st.integers(20, 60), "k": st.sampled_from([0, 0, 1, -1, -3]),
         "shift": st.integers(-50, 50)})
